@@ -289,7 +289,10 @@ def cmd_benign(args):
                 print('%s: patch does not apply: %s' % (name, msg[-300:]))
                 alarms.append(name + ' (patch)')
                 continue
+            only = os.environ.get('VERIF_BENIGN_CHECKS', '').split()
             for pid in PIDS:
+                if only and pid not in only:
+                    continue            # a quicker pass over chosen checks
                 rc, out = run_check_on(pid, tmp + '/repo', tmp + '/evidence',
                                        budget=os.environ.get('VERIF_BUDGET_S', '150'))
                 print('%-46s %s exit %d' % (name, pid, rc))
